@@ -359,6 +359,14 @@ func runC08(w *mon.W) {
 		default:
 			n = r.Intn(w.Pick(30000, 100001))
 		}
+		if k%8 == 7 {
+			// lengths around the usual block sizes (a block-wise counter meets a codon that straddles the block end)
+			n = []int{4096, 16384, 32768, 65536}[r.Intn(4)]*(1+r.Intn(2)) + r.Intn(9) - 2
+			if n > 100000 {
+				n = 65536 + r.Intn(9) - 2
+			}
+			w.Add("counting_cases_at_block_sizes", 1)
+		}
 		alpha := "ACGT"
 		switch r.Intn(4) {
 		case 0:
